@@ -699,4 +699,15 @@ theorem exec_tr {name : Asset → String} {w w' : World} {op : Op} {out : Out}
     have e' : Op.factory s f m = .factory s f (.createPair a0 a1 req c np nl) := by rw [e]
     exact ⟨freshOK_pair hf e', freshOK_tok hf e', ⟨s, f, a0, a1, req, c, nl, e'⟩⟩
 
+/-- C07, "can only increase": an account that is not the actor, not a pair contract and not the router — in
+particular the designated receiver of a swap, provision or route — loses nothing in any asset -/
+theorem never_lose {name : Asset → String} {w w' : World} {op : Op} {out : Out}
+    (hf : FreshOK w op) (h : exec name w op = .ok (w', out)) (a : Asset) (z : Nat)
+    (hz : z ≠ actorOf op) (hp : w.pair z = none) (hr : z ≠ w.router) : bal w a z ≤ bal w' a z := by
+  refine (exec_tr hf h).keep a z ?_
+  rintro (h1 | h2 | h3)
+  · exact hz h1
+  · rw [hp] at h2; cases h2
+  · exact hr h3
+
 end Halo.Flows
